@@ -703,6 +703,9 @@ fn ready<F: std::future::Future + Unpin>(mut f: F) -> Option<F::Output> {
 }
 
 pub fn execute(case: &str) -> String {
+    if case.starts_with("client ") {
+        return execute_client(case);
+    }
     let c = match parse(case) {
         Some(c) => c,
         None => return "bad-case".into(),
@@ -841,6 +844,321 @@ struct SharedIcpt(Arc<Mutex<Box<dyn FnMut(tonic::Request<()>) -> Result<tonic::R
 impl tonic::service::Interceptor for SharedIcpt {
     fn call(&mut self, request: tonic::Request<()>) -> Result<tonic::Request<()>, Status> {
         (self.0.lock().unwrap())(request)
+    }
+}
+
+// ---------------------------------------------------------------------------------------------
+// client kind: tonic::client::Grpc<InterceptedService<Mock, F>>::server_streaming
+//
+// case  := client via nscripts script* ncalls ccall*
+// ccall := origin-prefix origin-path origin-has-query path hdrs ext msg rhdrs rext
+// observed per call: isaw.. (iret..|irej..) (inner..|noinner)
+//                    (cok hdrs xext | cerr code msg details hdrs | cpending), then `calls n`
+
+#[derive(Clone, Debug)]
+struct CCall {
+    prefix: Vec<u8>,
+    opath: Vec<u8>,
+    oquery: bool,
+    path: Vec<u8>,
+    hdrs: H,
+    ext: Vec<(u8, Vec<u8>)>,
+    msg: Vec<u8>,
+    rhdrs: H,
+    rext: Vec<(u8, Vec<u8>)>,
+}
+
+struct CCase {
+    via: String,
+    scripts: Vec<Script>,
+    calls: Vec<CCall>,
+}
+
+fn parse_scripts(t: &mut Toks) -> Option<Vec<Script>> {
+    let ns: usize = t.num()?;
+    let mut scripts = Vec::new();
+    for _ in 0..ns {
+        let nops: usize = t.num()?;
+        let mut ops = Vec::new();
+        for _ in 0..nops {
+            ops.push(t.op()?);
+        }
+        let rej = match t.next()? {
+            "ok" => None,
+            "rej" => Some(Rej { ctor: t.num()?, code: t.num()?, msg: t.bytes()?, details: t.bytes()?, src: t.flag()?, md: t.h()? }),
+            _ => return None,
+        };
+        scripts.push(Script { ops, rej });
+    }
+    Some(scripts)
+}
+
+fn parse_client(case: &str) -> Option<CCase> {
+    let mut t = Toks { t: case.split(' ').filter(|s| !s.is_empty()).collect(), i: 0 };
+    if t.next()? != "client" {
+        return None;
+    }
+    let via = t.next()?.to_string();
+    let scripts = parse_scripts(&mut t)?;
+    let nc: usize = t.num()?;
+    let mut calls = Vec::new();
+    for _ in 0..nc {
+        calls.push(CCall {
+            prefix: t.bytes()?,
+            opath: t.bytes()?,
+            oquery: t.flag()?,
+            path: t.bytes()?,
+            hdrs: t.h()?,
+            ext: t.ext()?,
+            msg: t.bytes()?,
+            rhdrs: t.h()?,
+            rext: t.ext()?,
+        });
+    }
+    if t.i != t.t.len() {
+        return None;
+    }
+    Some(CCase { via, scripts, calls })
+}
+
+fn render_client(c: &CCase) -> String {
+    let mut o: Vec<String> = vec!["client".into(), c.via.clone(), c.scripts.len().to_string()];
+    for s in &c.scripts {
+        o.push(s.ops.len().to_string());
+        for op in &s.ops {
+            r_op(op, &mut o);
+        }
+        match &s.rej {
+            None => o.push("ok".into()),
+            Some(r) => {
+                o.extend(["rej".into(), r.ctor.to_string(), r.code.to_string(), hex(&r.msg), hex(&r.details), if r.src { "1".into() } else { "0".into() }]);
+                r_h(&r.md, &mut o);
+            }
+        }
+    }
+    o.push(c.calls.len().to_string());
+    for k in &c.calls {
+        o.extend([hex(&k.prefix), hex(&k.opath), if k.oquery { "1".into() } else { "0".into() }, hex(&k.path)]);
+        r_h(&k.hdrs, &mut o);
+        r_ext(&k.ext, &mut o);
+        o.push(hex(&k.msg));
+        r_h(&k.rhdrs, &mut o);
+        r_ext(&k.rext, &mut o);
+    }
+    o.join(" ")
+}
+
+#[derive(Default, Clone)]
+struct RawCodec;
+struct RawEnc;
+struct RawDec;
+impl tonic::codec::Codec for RawCodec {
+    type Encode = Vec<u8>;
+    type Decode = Vec<u8>;
+    type Encoder = RawEnc;
+    type Decoder = RawDec;
+    fn encoder(&mut self) -> RawEnc {
+        RawEnc
+    }
+    fn decoder(&mut self) -> RawDec {
+        RawDec
+    }
+}
+impl tonic::codec::Encoder for RawEnc {
+    type Item = Vec<u8>;
+    type Error = Status;
+    fn encode(&mut self, item: Vec<u8>, dst: &mut tonic::codec::EncodeBuf<'_>) -> Result<(), Status> {
+        use bytes::BufMut;
+        dst.put_slice(&item);
+        Ok(())
+    }
+}
+impl tonic::codec::Decoder for RawDec {
+    type Item = Vec<u8>;
+    type Error = Status;
+    fn decode(&mut self, src: &mut tonic::codec::DecodeBuf<'_>) -> Result<Option<Vec<u8>>, Status> {
+        use bytes::Buf;
+        let n = src.remaining();
+        let mut v = vec![0u8; n];
+        src.copy_to_slice(&mut v);
+        Ok(Some(v))
+    }
+}
+
+impl std::fmt::Display for InnerErr {
+    fn fmt(&self, f: &mut std::fmt::Formatter<'_>) -> std::fmt::Result {
+        write!(f, "inner error {}", self.0)
+    }
+}
+impl std::error::Error for InnerErr {}
+
+/// The transport under the client-side interceptor: records the request, answers trailers-only.
+struct ClientMock {
+    log: Log,
+    calls: Arc<Mutex<usize>>,
+    resps: Arc<Vec<(H, Vec<(u8, Vec<u8>)>)>>,
+    cur: Arc<Mutex<usize>>,
+}
+impl Service<http::Request<tonic::body::Body>> for ClientMock {
+    type Response = http::Response<ScriptBody>;
+    type Error = InnerErr;
+    type Future = std::future::Ready<Result<Self::Response, Self::Error>>;
+    fn poll_ready(&mut self, _cx: &mut Context<'_>) -> Poll<Result<(), Self::Error>> {
+        Poll::Ready(Ok(()))
+    }
+    fn call(&mut self, req: http::Request<tonic::body::Body>) -> Self::Future {
+        *self.calls.lock().unwrap() += 1;
+        let (parts, body) = req.into_parts();
+        let line = format!(
+            "inner {} {} {} {} {} {}",
+            hex(parts.method.as_str().as_bytes()),
+            version_tok(parts.version),
+            hex(parts.uri.to_string().as_bytes()),
+            show_headers(&parts.headers),
+            show_ext(&parts.extensions),
+            drain(body)
+        );
+        self.log.lock().unwrap().push(line);
+        let idx = *self.cur.lock().unwrap();
+        let (h, x) = &self.resps[idx];
+        let mut res = http::Response::new(ScriptBody::new(&BodyScript { chunks: vec![], trailers: None }).unwrap());
+        *res.version_mut() = http::Version::HTTP_2;
+        *res.headers_mut() = mk_headers(h).expect("resp headers");
+        *res.extensions_mut() = mk_ext(x);
+        std::future::ready(Ok(res))
+    }
+}
+
+fn block_on<F: std::future::Future>(f: F) -> Option<F::Output> {
+    let mut f = Box::pin(f);
+    let mut cx = Context::from_waker(Waker::noop());
+    for _ in 0..1000 {
+        if let Poll::Ready(v) = f.as_mut().poll(&mut cx) {
+            return Some(v);
+        }
+    }
+    None
+}
+
+fn make_interceptor(scripts: Vec<Script>, ilog: Log) -> SharedIcpt {
+    let mut count = 0usize;
+    let interceptor = move |req: tonic::Request<()>| -> Result<tonic::Request<()>, Status> {
+        let mine = count;
+        count += 1;
+        ilog.lock().unwrap().push(format!(
+            "isaw {} {}",
+            show_headers(&req.metadata().clone().into_headers()),
+            show_ext(req.extensions())
+        ));
+        let mut req = req;
+        let mut rej = None;
+        if !scripts.is_empty() {
+            let sc = &scripts[mine % scripts.len()];
+            for op in &sc.ops {
+                req = apply_op(op, mine, req);
+            }
+            rej = sc.rej.clone();
+        }
+        match rej {
+            None => {
+                ilog.lock().unwrap().push(format!(
+                    "iret {} {}",
+                    show_headers(&req.metadata().clone().into_headers()),
+                    show_ext(req.extensions())
+                ));
+                Ok(req)
+            }
+            Some(r) => {
+                let st = mk_status(&r);
+                ilog.lock().unwrap().push(format!("irej {}", show_status_fields(&st)));
+                Err(st)
+            }
+        }
+    };
+    let boxed: Box<dyn FnMut(tonic::Request<()>) -> Result<tonic::Request<()>, Status>> = Box::new(interceptor);
+    SharedIcpt(Arc::new(Mutex::new(boxed)))
+}
+
+fn execute_client(case: &str) -> String {
+    let c = match parse_client(case) {
+        Some(c) => c,
+        None => return "bad-case".into(),
+    };
+    let log: Log = Arc::new(Mutex::new(Vec::new()));
+    let calls = Arc::new(Mutex::new(0usize));
+    let cur = Arc::new(Mutex::new(0usize));
+    let resps = Arc::new(c.calls.iter().map(|k| (k.rhdrs.clone(), k.rext.clone())).collect::<Vec<_>>());
+    let shared = make_interceptor(c.scripts.clone(), log.clone());
+    // one client per origin would reset the interceptor; keep one service and re-wrap the
+    // (cheaply cloneable) handle: InterceptedService is Clone when both parts are.
+    let mock = SharedMock(Arc::new(Mutex::new(ClientMock { log: log.clone(), calls: calls.clone(), resps, cur: cur.clone() })));
+    let svc: InterceptedService<SharedMock, SharedIcpt> = match c.via.as_str() {
+        "layer" => InterceptorLayer::new(shared).layer(mock),
+        _ => InterceptedService::new(mock, shared),
+    };
+    for (idx, k) in c.calls.iter().enumerate() {
+        *cur.lock().unwrap() = idx;
+        let before = *calls.lock().unwrap();
+        let mut origin = k.prefix.clone();
+        origin.extend_from_slice(&k.opath);
+        if k.oquery {
+            origin.extend_from_slice(b"?q=1");
+        }
+        let origin: http::Uri = match std::str::from_utf8(&origin).ok().and_then(|s| s.parse().ok()) {
+            Some(u) => u,
+            None => return "bad-case".into(),
+        };
+        let path: http::uri::PathAndQuery = match std::str::from_utf8(&k.path).ok().and_then(|s| s.parse().ok()) {
+            Some(p) => p,
+            None => return "bad-case".into(),
+        };
+        let md = match mk_headers(&k.hdrs) {
+            Some(h) => MetadataMap::from_headers(h),
+            None => return "bad-case".into(),
+        };
+        let mut client = tonic::client::Grpc::with_origin(svc.clone(), origin);
+        let mut req = tonic::Request::new(k.msg.clone());
+        *req.metadata_mut() = md;
+        *req.extensions_mut() = mk_ext(&k.ext);
+        let res = block_on(async {
+            client.ready().await.map_err(|_| Status::internal("not ready"))?;
+            client.server_streaming::<Vec<u8>, Vec<u8>, RawCodec>(req, path, RawCodec).await
+        });
+        let after = *calls.lock().unwrap();
+        if after == before {
+            log.lock().unwrap().push("noinner".into());
+        } else if after != before + 1 {
+            log.lock().unwrap().push(format!("inner-calls {}", after - before));
+        }
+        let line = match res {
+            None => "cpending".to_string(),
+            Some(Ok(resp)) => {
+                let (md, _stream, ext) = resp.into_parts();
+                format!("cok {} {}", show_headers(&md.into_headers()), show_ext(&ext))
+            }
+            Some(Err(st)) => format!("cerr {}", show_status_fields(&st)),
+        };
+        log.lock().unwrap().push(line);
+    }
+    let mut out = log.lock().unwrap().join(" ");
+    if !out.is_empty() {
+        out.push(' ');
+    }
+    out.push_str(&format!("calls {}", *calls.lock().unwrap()));
+    out
+}
+
+#[derive(Clone)]
+struct SharedMock(Arc<Mutex<ClientMock>>);
+impl Service<http::Request<tonic::body::Body>> for SharedMock {
+    type Response = http::Response<ScriptBody>;
+    type Error = InnerErr;
+    type Future = std::future::Ready<Result<Self::Response, Self::Error>>;
+    fn poll_ready(&mut self, cx: &mut Context<'_>) -> Poll<Result<(), Self::Error>> {
+        self.0.lock().unwrap().poll_ready(cx)
+    }
+    fn call(&mut self, req: http::Request<tonic::body::Body>) -> Self::Future {
+        self.0.lock().unwrap().call(req)
     }
 }
 
@@ -1220,6 +1538,68 @@ fn hb(n: &str, v: &str) -> (Vec<u8>, Vec<u8>, bool) {
     (n.as_bytes().to_vec(), v.as_bytes().to_vec(), false)
 }
 
+fn no_encoding_names(h: &mut H) {
+    h.0.retain(|e| e.0.to_ascii_lowercase() != b"grpc-encoding");
+}
+
+fn gen_client_case(rng: &mut Rng) -> CCase {
+    let ncalls = match rng.below(3) {
+        0 => 1,
+        _ => rng.range(1, 3),
+    };
+    let mut calls = Vec::new();
+    for _ in 0..ncalls {
+        let focus: Vec<Vec<u8>> = RESERVED.iter().map(|s| s.as_bytes().to_vec()).collect();
+        let opath = rng.pick(&["", "", "/", "/base", "/base/", "/a/b"]).as_bytes().to_vec();
+        let oquery = !opath.is_empty() && rng.chance(1, 4);
+        let mut rh: Vec<(Vec<u8>, Vec<u8>, bool)> = Vec::new();
+        rh.push(hb("grpc-status", *rng.pick(&["0", "0", "0", "5", "16", "99", "x", "", "00", "1 "])));
+        if rng.chance(1, 6) {
+            rh.push(hb("grpc-status", "13"));
+        }
+        if rng.chance(1, 2) {
+            rh.push(hb("grpc-message", *rng.pick(&["", "hello", "a%20b", "%E2%9C%93", "100%", "%zz", "%4", "%", "%41%42c", "%e2%9c%93"])));
+        }
+        if rng.chance(1, 3) {
+            rh.push(hb("grpc-status-details-bin", *rng.pick(&["", "AAAA", "AQID", "AA==", "AA", "+/8"])));
+        }
+        for _ in 0..rng.below(3) {
+            rh.push(hb(*rng.pick(&["x-a", "x-bin", "content-type", "grpc-foo", "te", "x-a"]), *rng.pick(&["1", "AAAA", "application/grpc", ""])));
+        }
+        if rng.chance(1, 10) {
+            rh.push(hb("grpc-encoding", "identity"));
+        }
+        if rng.chance(1, 2) {
+            rh.reverse();
+        }
+        let n = rng.below(20) as usize;
+        calls.push(CCall {
+            prefix: rng.pick(&["http://example.com", "https://h:50051", "http://[::1]:8080"]).as_bytes().to_vec(),
+            opath,
+            oquery,
+            path: rng.pick(&["/pkg.Svc/Method", "/s/m", "/pkg.Svc/Method?x=1"]).as_bytes().to_vec(),
+            hdrs: gen_hdrs(rng, 7, &focus),
+            ext: gen_ext(rng),
+            msg: rng.bytes(n),
+            rhdrs: H(rh),
+            rext: gen_ext(rng),
+        });
+    }
+    let mut present: Vec<Vec<u8>> = calls.iter().flat_map(|c| present_names(&c.hdrs)).collect();
+    present.push(b"te".to_vec());
+    present.push(b"content-type".to_vec());
+    present.sort();
+    present.dedup();
+    let nscripts = rng.range(0, 2);
+    let mut scripts: Vec<Script> = (0..nscripts).map(|_| gen_script(rng, &present, 45)).collect();
+    for sc in &mut scripts {
+        if let Some(r) = &mut sc.rej {
+            no_encoding_names(&mut r.md);
+        }
+    }
+    CCase { via: via(rng), scripts, calls }
+}
+
 pub fn generate(tier: &str, rng: &mut Rng) -> Vec<String> {
     let thorough = tier == "thorough";
     let mut out: Vec<String> = Vec::new();
@@ -1466,6 +1846,13 @@ pub fn generate(tier: &str, rng: &mut Rng) -> Vec<String> {
             }
         }
         push(Case { kind: "odd".into(), via: via(rng), scripts: vec![script], calls: vec![call] });
+    }
+    // ---- client kind: Grpc<InterceptedService<Mock, F>>::server_streaming (prepare_request ->
+    // interceptor -> transport; trailers-only answer / rejection decoded by the real client)
+    let n_client = if thorough { 15_000 } else { 1_200 };
+    for _ in 0..n_client {
+        let c = gen_client_case(rng);
+        out.push(render_client(&c));
     }
     out
 }
